@@ -30,6 +30,8 @@ def main(results_file: str, delivery: str = "/tmp/seed_out", offset: int = 0):
         d.mkdir(parents=True, exist_ok=True)
         shutil.copy(src / f"patch{k}.diff", d / "patch.diff")
         shutil.copy(src / f"demo{k}.py", d / "demo.py")
+        if (src / f"demo{k}.orig_before_adaptation.py").exists():
+            shutil.copy(src / f"demo{k}.orig_before_adaptation.py", d / "demo.orig_before_adaptation.py")
         if (src / f"patch{k}.orig_before_rebase.diff").exists():
             shutil.copy(src / f"patch{k}.orig_before_rebase.diff", d / "patch.orig_before_rebase.diff")
         meta = json.loads((src / f"meta{k}.json").read_text()) if (src / f"meta{k}.json").exists() else {}
